@@ -136,6 +136,20 @@ Theorem C02_source_never_panics : forall fuel (txt : text), gparse_with fuel gra
 Proof. exact source_never_panics. Qed.
 Print Assumptions C02_source_never_panics.
 
+(** ... and for `syntax::parse` ITSELF as rendered from the current crates/syntax/src/lib.rs (t_libglue.py,
+    gen/GenLibGlue.v; [ParserSource.lib_parse]): same function, total, never panics *)
+Theorem C02_parse_is_source : forall (fuel : nat) (txt : text),
+  lib_parse fuel txt = gparse_with fuel grammar_prog grammar_entry txt.
+Proof. exact lib_parse_is_gparse. Qed.
+Print Assumptions C02_parse_is_source.
+Theorem C02_total_lib_parse : forall txt : text, exists fuel t es,
+  lib_parse fuel txt = GParseOk t es /\ lossless txt t /\ Forall (C02_serror_wf txt) es.
+Proof. exact lib_parse_total. Qed.
+Print Assumptions C02_total_lib_parse.
+Theorem C02_lib_parse_never_panics : forall fuel (txt : text), lib_parse fuel txt <> GParsePanic.
+Proof. exact lib_parse_never_panics. Qed.
+Print Assumptions C02_lib_parse_never_panics.
+
 (** Non-vacuity: an input with an unterminated string, an unterminated #ifdef and a stray character parses to ParseOk
     with 3 errors. *)
 Definition C02_example_text : text :=
